@@ -33,7 +33,9 @@ type c02Case struct {
 	Label     string           `json:"label"`
 	OpenNotif *world.NotifSpec `json:"open_notif,omitempty"`
 	// Trailer: a message pipelined right behind the OPEN in the same stream:
-	// 1 = Cease NOTIFICATION with 40 data bytes, 2 = UPDATE with a 64-byte body
+	// 1 = Cease NOTIFICATION with 40 data bytes, 2 = UPDATE with a 64-byte body,
+	// 3 = KEEPALIVE and then the FIN, 4 = the FIN alone (for 3 and 4 OnOpenMessage
+	// busy-waits a little: everything has arrived by the time the OPEN is dealt with)
 	Trailer int `json:"trailer,omitempty"`
 	// Prev: earlier sessions of the same peer (outbound: of the same FSM object),
 	// each Established and ended without damping, before the connection under test
@@ -288,7 +290,7 @@ func genC02(rt *rapid.T) c02Case {
 	}
 	c.Cuts = genCuts(rt, wire.HeaderLen+len(c.Body))
 	if rapid.IntRange(0, 3).Draw(rt, "trailer") == 0 {
-		c.Trailer = rapid.IntRange(1, 2).Draw(rt, "trailerkind")
+		c.Trailer = rapid.IntRange(1, 4).Draw(rt, "trailerkind")
 		c.Cuts = genCuts(rt, wire.HeaderLen+len(c.Body)+60)
 	}
 	if rapid.IntRange(0, 7).Draw(rt, "pluginnotif") == 0 {
@@ -388,6 +390,9 @@ func c02Prop(t *testing.T, r *hx.Run) func(c c02Case) hx.Verdict {
 
 		peer := world.PeerSpec{Remote: "10.0.0.2", LocalAS: c.LocalAS, RemoteAS: c.RemoteAS, Passive: c.Passive, Hold: c.LocalHold,
 			Plugin: world.PluginSpec{OpenNotif: c.OpenNotif}}
+		if c.Trailer >= 3 {
+			peer.Plugin.SpinUs = map[string]int64{"open": 200}
+		}
 		var dev *hx.Dev
 		fail := func(key, f string, a ...any) {
 			if dev == nil {
@@ -415,8 +420,13 @@ func c02Prop(t *testing.T, r *hx.Run) func(c c02Case) hx.Verdict {
 				stream = append(stream, wire.Notif{Code: 6, Sub: 2, Data: bytes.Repeat([]byte{0xAA}, 40)}.Frame()...)
 			case 2:
 				stream = append(stream, wire.Frame(wire.TypeUpdate, bytes.Repeat([]byte{0x55}, 64))...)
+			case 3:
+				stream = append(stream, wire.Keepalive()...)
 			}
 			conn.RemoteSend(stream, c.Cuts)
+			if c.Trailer >= 3 {
+				conn.RemoteClose()
+			}
 			w.Settle()
 			msgs, perr := world.Parsed(conn)
 			if perr != nil {
@@ -447,7 +457,7 @@ func c02Prop(t *testing.T, r *hx.Run) func(c c02Case) hx.Verdict {
 				if !st.LocalClosed {
 					fail("refusal-not-closed", "corebgp sent %v but left the connection open", n)
 				}
-				conn.RemoteSend(wire.Keepalive(), nil)
+				conn.RemoteSend(wire.Keepalive(), nil) // (not delivered once the remote has closed)
 				w.Advance(200 * time.Millisecond)
 				if k := countEst(); k != 0 {
 					fail("established-after-refusal", "OnEstablished fired %d times after the OPEN was refused with %v", k, n)
@@ -486,6 +496,14 @@ func c02Prop(t *testing.T, r *hx.Run) func(c c02Case) hx.Verdict {
 				}
 				if s := w.RetainedIntact(); s != "" {
 					fail("capabilities-modified", "%s", s)
+					return
+				}
+				if c.Trailer == 3 {
+					// OPEN, KEEPALIVE and FIN arrived together: the session is Established on
+					// the KEEPALIVE all the same (and ends with the FIN)
+					if k := countEst(); k != 1 {
+						fail("not-established", "a valid OPEN and the KEEPALIVE arrived together, followed by the remote's close: OnEstablished fired %d times", k)
+					}
 					return
 				}
 				if c.Trailer != 0 {
